@@ -133,6 +133,8 @@ typecompatible(struct type *t1, struct type *t2)
 	case TYPEARRAY:
 		if (t1->incomplete || t2->incomplete)
 			goto derived;
+		if (t1->size && t2->size && t1->size != t2->size)
+			return false;
 		e1 = t1->u.array.length;
 		e2 = t2->u.array.length;
 		if (e1 && e2 && e1->kind == EXPRCONST && e2->kind == EXPRCONST && e1->u.constant.u != e2->u.constant.u)
